@@ -494,15 +494,18 @@ def oolEncode (k : Kernel) (w : Nat) : Nat → List Nat → List Nat
       then k.pack w (xs ++ List.replicate (1024 - xs.length) 0)
       else xs
 
-/-- unpack_out_of_line: the layout of the tail is inferred from the buffer length -/
+/-- unpack_out_of_line: whole chunks of `words_per_chunk` words are unpacked; the layout of the tail is inferred from the
+    buffer length (`tail_is_raw = tail_values > 0 && compressed_words.len() == full_words + tail_values`) -/
+def oolDecodeLoop (k : Kernel) (w wpc : Nat) : Nat → List Nat → Nat → List Nat
+  | 0, _, _ => []
+  | fuel + 1, ws, n =>
+    if n = 0 then []
+    else if 1024 ≤ n then k.unpack w (ws.take wpc) ++ oolDecodeLoop k w wpc fuel (ws.drop wpc) (n - 1024)
+    else if ws.length = n then ws.take n
+    else (k.unpack w (ws.take wpc)).take n
+
 def oolDecode (k : Kernel) (w : Nat) (ws : List Nat) (n : Nat) : List Nat :=
-  let wpc := divCeil (1024 * w) k.bits
-  let full := n / 1024
-  let tail := n % 1024
-  ((List.range full).flatMap (fun i => k.unpack w ((ws.drop (i * wpc)).take wpc))) ++
-  (if tail = 0 then []
-   else if ws.length = full * wpc + tail then (ws.drop (full * wpc)).take tail
-   else (k.unpack w ((ws.drop (full * wpc)).take wpc)).take tail)
+  oolDecodeLoop k w (divCeil (1024 * w) k.bits) (n + 1) ws n
 
 /-! ## general (LZ4 / ZSTD) wrapper (general.rs) with the library as a parameter -/
 
